@@ -26,7 +26,7 @@ PID = "C01"
 def py_variant_programs(rnd: random.Random, n: int) -> List[Dict[str, Any]]:
     """Programs whose page is ONE component tag with closed (text-only) fills and constant kwargs:
     these can also be rendered through Component.render(kwargs=..., slots=...)."""
-    g = P.Gen(rnd, depth=2, width=2, collide=False)
+    g = P.Gen(rnd, depth=3, width=3, collide=False)
     out = []
     for i in range(n):
         p = g.program(i + 1, P.MODES[i % 2])
